@@ -108,6 +108,44 @@ def check_attributes(p, reach, r):
                 r.fail('C20.R1', key, f'`self.{a}` is read but never assigned anywhere in {fi.cls} or its bases: AttributeError when this code runs',
                        src(fi.module), n.lineno)
     r.stats['self_attribute_reads'] = n_self
+    # attributes read through a typed attribute: self.<a>.<X> where self.<a> is constructed from a package class
+    n_typed = 0
+    for fi in p.all_functions():
+        if fi.key not in reach or fi.cls is None:
+            continue
+        key_cls = (fi.module, fi.cls)
+        seen2 = set()
+        for n in walk_no_nested(fi.node):
+            if isinstance(n, ast.Attribute) and isinstance(n.value, ast.Attribute) and self_attr(n.value) and isinstance(n.ctx, ast.Load):
+                a, x = n.value.attr, n.attr
+                if (a, x) in seen2:
+                    continue
+                targets = p.attr_class(key_cls, a)
+                if not targets:
+                    continue
+                seen2.add((a, x))
+                n_typed += 1
+                missing = [k for k in targets if not (p.has_member(k, x) or x in EXTERNAL_OK)]
+                key = f'{fi.key}::self.{a}.{x}'
+                if missing:
+                    r.fail('C20.R1', key, f'`self.{a}.{x}` is read, but `self.{a}` is a {missing[0][1]} ({missing[0][0]}) which has no attribute `{x}`: AttributeError',
+                           src(fi.module), n.lineno)
+                else:
+                    r.ok('C20.R1', key, f'exists on {", ".join(k[1] for k in targets)}', src(fi.module), n.lineno)
+    r.stats['typed_attribute_reads'] = n_typed
+    # methods called on `<token>.resourcename` (the issuing store): must exist on every store class
+    stores = tables.discover_stores(p)
+    for fi in p.all_functions():
+        if fi.key not in reach:
+            continue
+        for n in walk_no_nested(fi.node):
+            if isinstance(n, ast.Attribute) and isinstance(n.value, ast.Attribute) and n.value.attr == 'resourcename' and isinstance(n.ctx, ast.Load):
+                missing = [s_.ci.label for s_ in stores if n.attr not in s_.methods and not p.has_member(s_.ci.key, n.attr)]
+                key = f'{fi.key}::<token>.resourcename.{n.attr}'
+                if missing:
+                    r.fail('C20.R1', key, f'`{ast.unparse(n)}` is used on the store that issued a token, but {missing[:3]} define no `{n.attr}`', src(fi.module), n.lineno)
+                else:
+                    r.ok('C20.R1', key, 'defined by every store class', src(fi.module), n.lineno)
     # attributes read on elements of the node's edge lists
     for fi in p.all_functions():
         if fi.key not in reach or fi.cls is None or (fi.module, fi.cls) not in nodes:
@@ -121,7 +159,10 @@ def check_attributes(p, reach, r):
             for g in gens:
                 if isinstance(g.target, ast.Name) and ast.unparse(g.iter) in ('self.in_edges', 'self.out_edges'):
                     edge_vars[g.target.id] = (n, ast.unparse(g.iter))
+            if isinstance(n, ast.For) and isinstance(n.target, ast.Name) and ast.unparse(n.iter) in ('self.in_edges', 'self.out_edges'):
+                edge_vars[n.target.id + f'@{n.lineno}'] = (n, ast.unparse(n.iter))
         for var, (comp, lst) in edge_vars.items():
+            var = var.split('@')[0]
             for x in ast.walk(comp):
                 if isinstance(x, ast.Attribute) and isinstance(x.value, ast.Name) and x.value.id == var and isinstance(x.ctx, ast.Load):
                     if any(a <= x.lineno <= b for a, b in guards):
